@@ -21,12 +21,39 @@ pub struct State {
     pub last_shard: Option<u64>,
 }
 
+/// event log of the batch protocol: (thread, kind, scene); kinds B(egin) D(ispatched) T(ake) S(ent) M(onitor decremented)
+/// plus, appended by the executor itself, P(robe) and R(eceived)
+pub static EVENTS: Lazy<Mutex<Vec<(u64, char, u64)>>> = Lazy::new(|| Mutex::new(Vec::new()));
+
+pub fn thread_no() -> u64 {
+    use std::hash::{Hash, Hasher};
+    let mut h = std::collections::hash_map::DefaultHasher::new();
+    std::thread::current().id().hash(&mut h);
+    h.finish()
+}
+
+pub fn log_event(kind: char, arg: u64) {
+    EVENTS.lock().unwrap().push((thread_no(), kind, arg));
+}
+
+pub fn sent_so_far() -> u64 {
+    EVENTS.lock().unwrap().iter().filter(|e| e.1 == 'S').count() as u64
+}
+
 pub static SCHED: Lazy<(Mutex<State>, Condvar)> = Lazy::new(|| (Mutex::new(State::default()), Condvar::new()));
 
 const STEP_TIMEOUT: Duration = Duration::from_millis(3000);
 
 pub fn install() {
     similari::verif::set_hook(Some(Arc::new(|site: &'static str, arg: u64| {
+        match site {
+            "batch.begin" => return log_event('B', arg),
+            "batch.dispatched" => return log_event('D', arg),
+            "vote.job.begin" => return log_event('T', arg),
+            "vote.after_send" => return log_event('S', arg),
+            "vote.monitor.dec" => return log_event('M', arg),
+            _ => {}
+        }
         let (m, cv) = &*SCHED;
         let mut st = m.lock().unwrap();
         if !st.active {
